@@ -73,6 +73,7 @@ const char *vp_out_json(void);     /* "[...]" */
 long vp_out_count(void);
 extern int vp_record_bytes;        /* 0: record only lengths (flood mode) */
 extern int vp_in_tick;             /* set by drivers while inside automata_tick */
+extern int vp_thread_mode;
 
 /* raw copies of the frames transmitted during the current request (for PIPE) */
 #define VP_MAX_TXS 2048
